@@ -140,7 +140,35 @@ def run_case(case):
         return run_scope(case)
     if case["kind"] == "env":
         return run_env(case)
+    if case["kind"] == "appended":
+        return run_appended(case)
     return run_structural(case)
+
+
+def run_appended(case):
+    """A typed list grown in place with a plain value against the twin whose list was built with that value."""
+    from flow.record import base
+
+    h = jhash(case)
+    base.set_ignored_fields_for_comparison([])
+    viol = []
+    t, first, more = case["t"], case["first"], case["more"]
+    try:
+        a = recs.build_record(rs("s/app", [[t + "[]", "xs"], ["varint", "n"]], ["[%s]" % first, "1"]))
+        for op in case["ops"]:
+            if op == "append":
+                a.xs.append(lit.ev(more))
+            elif op == "extend":
+                a.xs.extend([lit.ev(more)])
+            elif op == "insert":
+                a.xs.insert(len(a.xs), lit.ev(more))
+            else:
+                a.xs += [lit.ev(more)]
+        b = fresh_copy(rs("s/app", [[t + "[]", "xs"], ["varint", "n"]], ["[%s]" % ", ".join([first] + [more] * len(case["ops"])), "1"]))
+    except Exception as e:  # noqa: BLE001
+        return {"ev": 1, "h": h, "nt": False, "out": "rejected:" + type(e).__name__}
+    out = laws(a, b, (), "appended:%s[]" % t, case, viol, want=True)
+    return {"ev": 1, "h": h, "nt": True, "out": "appended:" + out, "viol": viol, "count": {"pairs": 1}}
 
 
 def run_type(case):
@@ -488,6 +516,14 @@ def cases(tier, seed):
     for t in TYPE_ALPHABET:
         for v in [x for x in alphabet(t, seed) if small(x)][:6]:
             yield {"kind": "struct", "t": t, "v": v}
+    for t, first, more in (("net.ipaddress", "'10.0.0.1'", "'192.168.1.10'"), ("net.ipaddress", "'::1'", "'2001:db8::2'"), ("net.ipnetwork", "'10.0.0.0/8'", "'192.168.0.0/16'"),
+                           ("path", "'/a'", "'/b/c'"), ("path", "'/a'", "windows_path('C:\\\\x')"), ("datetime", "dt(2020,1,1,tz=UTC)", "dt(2021,2,3,4,5,6,7,tz=off(2))"),
+                           ("datetime", "dt(2020,1,1,tz=UTC)", "dt(2021,2,3,4,5,6)"), ("string", "'a'", "'b'"), ("string", "'a'", "b'by\\xff'"), ("varint", "1", "2**70"),
+                           ("uint16", "1", "65535"), ("boolean", "True", "0"), ("bytes", "b'a'", "b'\\x00'"), ("float", "0.5", "2"), ("uri", "'http://a'", "'http://b/c'"),
+                           ("digest", "('d41d8cd98f00b204e9800998ecf8427e', None, None)", "(None, 'da39a3ee5e6b4b0d3255bfef95601890afd80709', None)"),
+                           ("command", "'ls -l'", "'cmd.exe /c dir'"), ("filesize", "1", "2**40")):
+        for ops in (["append"], ["extend"], ["insert"], ["iadd"], ["append", "append"]):
+            yield {"kind": "appended", "t": t, "first": first, "more": more, "ops": ops}
     for hist in scope_histories(6 if thorough else 5):
         yield {"kind": "scope", "events": hist}
     for i, j, k in itertools.product(range(len(SETS)), repeat=3):
